@@ -70,7 +70,7 @@ func varintThresholds(fn *ssa.Function, of func(ssa.Value) bool) []int64 {
 }
 
 func c06(c *core.Ctx) {
-	c.Explain("C06 (packet codec): decided statically — R1 packet tables agree: the 15 packet type codes dispatched by NewPacket, the concrete implementers of Packet, the type switch of TotalBytes and the type code each Pack writes into its fixed header; R2 property tables agree: every Prop* constant is whitelisted in ValidProperties, decoded by Properties.Unpack and encoded by Properties.Pack into/from the same Properties field with the same wire kind, and single-valued properties are read through a helper that receives the current value of that same field (duplicate detection); R3 no allocation is sized by a length decoded from the wire without a bound (today: KNOWN-FINDINGS for the 13 Unpack bodies sized by Remaining Length before the max-packet-size check); R4 each Unpack reads the stream once, exactly Remaining Length bytes, and touches the body only through a bytes.Buffer; R5 the variable-byte-integer size thresholds agree between the encoder and the two size functions; R6 every scratch buffer taken from the pool is returned exactly once.")
+	c.Explain("C06 (packet codec): decided statically — R1 packet tables agree: the 15 packet type codes dispatched by NewPacket, the concrete implementers of Packet, the type switch of TotalBytes and the type code each Pack writes into its fixed header; R2 property tables agree: every Prop* constant is whitelisted in ValidProperties, decoded by Properties.Unpack and encoded by Properties.Pack into/from the same Properties field with the same wire kind, and single-valued properties are read through a helper that receives the current value of that same field (duplicate detection); R3 no allocation is sized by a length decoded from the wire without a bound (today: KNOWN-FINDINGS for the 13 Unpack bodies sized by Remaining Length before the max-packet-size check); R4 each Unpack reads the stream once, exactly Remaining Length bytes, and touches the body only through a bytes.Buffer; R5 the variable-byte-integer size thresholds agree between the encoder and the two size functions; R6 every scratch buffer taken from the pool is returned exactly once. Added in the second round: Nothing derived from a pooled scratch buffer is returned from the function that hands the buffer back.")
 	c.NotDecided("absence of panics in ValidUTF8 / ValidTopicName / ValidTopicFilter / TopicMatch / DecodeUTF8String (needs relational numeric reasoning), acceptance = MQTT 4.7 / 1.5.4, round-trip equality of every packet value, TotalBytes = encoded length beyond the threshold tables")
 	p := c.P
 	fl := ssax.NewFlow()
